@@ -237,6 +237,35 @@ def gen_case(rng, malformed=False, yaml_share=0.25, conflict=False, ctx_kind=Non
             'malformed': malformed, 'conflict': conflict}
 
 
+def gen_exclusion_case(rng):
+    """`excluded_tasks` is a matter of the declaring config alone: two or three config files declare the same classes (under different
+    namespaces, or some at the root), only one of them excludes one; the others keep it — whatever the order of processing"""
+    classes = {}
+    for i, nm in enumerate(rng.sample(['t1', 't2', 't3', 'feat'], rng.randint(2, 3))):
+        classes[f'K{i}'] = {'name': nm, 'group': rng.choice(['', 'g']), 'params': [{'name': 'x', 'default': 0}] if rng.random() < 0.5 else [],
+                            'inputs': [], 'abstract': False, 'kind': 'json', 'run_args': [], 'pull': [], 'in_kinds': {}, 'base': 'Task'}
+    ids = list(classes)
+    # a consumer that takes the excluded class as an OPTIONAL input (where it is excluded the default is used, construction succeeds)
+    victim = rng.choice(ids)
+    classes['KC'] = {'name': 'cons', 'group': '', 'params': [], 'inputs': [{'by': 'class', 'ref': victim, 'default': rng.choice([None, 5])}],
+                     'abstract': False, 'kind': 'json', 'run_args': [], 'pull': [], 'in_kinds': {}, 'base': 'Task'}
+    n = rng.randint(2, 3)
+    who = rng.randrange(n)                       # the config that excludes
+    nss = rng.sample([None, 'a', 'b', 'n'], n)
+    fs, uses = {}, []
+    for j in range(n):
+        d = {'tasks': ids + ['KC']}
+        if j == who:
+            d['excluded_tasks'] = [victim]
+        if rng.random() < 0.5:
+            d['x'] = j
+        fs[f'p{j}.json'] = d
+        uses.append(f'@cfg/p{j}.json' + (f' as {nss[j]}' if nss[j] else ''))
+    fs['main.json'] = {'uses': uses}
+    return {'module': gen.fresh_modname(), 'classes': classes, 'files': fs, 'main': 'main.json', 'context': None, 'ctx_kind': 'none',
+            'malformed': False, 'conflict': False, 'family': 'exclusion'}
+
+
 def gen_rootref_case(rng):
     """a ROOT-level task refers by name (required or optional input) to a task that exists only INSIDE a namespace (or only at the
     root while the referring task sits in a namespace): a name without namespace part is looked up in the referring task's own
